@@ -49,7 +49,20 @@ def strip_funcs(c):
 
 def mutate(rng, q):
     """modify a program object in place (something a user may do to a returned instance)"""
-    k = rng.randrange(7)
+    k = rng.randrange(8)
+    if k == 7:
+        # edit a register transform object itself
+        for o in q._operations:
+            for a in list(o.get("args", [])) + list(o.get("kwargs", {}).values()):
+                if hasattr(a, "regrefs") and hasattr(a, "func_str"):
+                    a.regrefs.append(99)
+                    a.func_str = "mutated"
+                    try:
+                        a.expr = a.expr + 1
+                    except Exception:  # noqa: BLE001
+                        pass
+                    return
+        k = 1
     if k == 0 and q._operations:
         q._operations[rng.randrange(len(q._operations))]["modes"][0] = 99
     elif k == 1 and q._operations:
@@ -92,6 +105,7 @@ def run_sequence(text, info, seq_seed, length):
         return None
     p = r[1]
     live = [("template" if p.is_template() else "program", p, snapshot(p))]
+    supplied = {}          # array values handed to the template: the same ndarray object may be passed again
     for step in range(length):
         k = rng.randrange(6)
         what = ""
@@ -105,7 +119,11 @@ def run_sequence(text, info, seq_seed, length):
                     what = "template call"
                     vals, arrays = gen.gen_param_values(rng, info)
                     kw = dict(vals)
-                    kw.update({n: np.array(v) for n, v in arrays.items()})
+                    for n, v in arrays.items():
+                        if n in supplied and rng.random() < 0.5:
+                            kw[n] = supplied[n]
+                        else:
+                            kw[n] = supplied[n] = np.array(v, dtype=float)
                     q = p(**kw)
                     live.append(("instance", q, snapshot(q)))
                 elif k == 2:
@@ -207,6 +225,12 @@ def run(ctx):
             # operations fed by measured registers of modes they do not act on themselves
             script, _, _ = gen.gen_rrt_script(ctx.rng, {"depth": 1, "max_items": 6, "array_args": True})
             info = {"params": [], "array_params": {}}
+            if i % 2 == 0:
+                # ... in a template: instances then carry the template's register transforms
+                script = dict(script)
+                script["items"] = list(script["items"]) + [("stmt", "Rgate", {"pos": [("expr", ("par", "a"))], "kw": []},
+                                                            None, [("int", "0")], None)]
+                info = {"params": ["a"], "array_params": {}}
             ctx.count("program-with-register-arguments")
         elif i % 3 == 1:
             script, info, _ = gen.gen_template(ctx.rng, {"depth": 2, "max_items": 6, "array_args": True})
